@@ -39,3 +39,12 @@ Theorem C02_resize_geometry : forall b nc nr cc cr, BInv b -> 1 <= nc -> 1 <= nr
 Proof. exact buf_resize_ok'. Qed.
 Check C02_resize_geometry : forall b nc nr cc cr, BInv b -> 1 <= nc -> 1 <= nr -> (nc = bcols b -> cr < Nat.max (brows b) nr) -> exists b' cc' cr', buf_resize b nc nr cc cr = Ok (b', (cc', cr')) /\ BInv b' /\ bcols b' = nc /\ brows b' = nr /\ blimit b' = blimit b /\ trim_needed b' = true /\ cr' < nr /\ (nc <> bcols b -> cc' < nc) /\ (nc = bcols b -> cc' = cc).
 Print Assumptions C02_resize_geometry.
+
+From Avt Require Import Gen.TermFns Proofs.TermTie Proofs.TermTieW Proofs.TermTieX.
+(** SOURCE TIE BY PROOF (translate/term2coq.py -> Gen/TermFns.v, W-mode): the method of `impl Terminal` is REGENERATED from src/terminal.rs on every run as a function over the scalar record `zt` and an abstract world behind the interface `zops` (recorded calls of the buffer / tabs / dirty-line primitives with their evaluated arguments, queries for tab stops / cells / charset translation); instantiated with the model's own primitives (`Om`) it is proved equal to the hand-written model function, panics included: the model performs exactly the primitive calls the Rust text performs - same arguments, order, marked rows, erase modes, case splits *)
+(** Terminal::execute as a whole, every one of the 50 functions *)
+Theorem C02_source_execute : forall t f, TInv t -> w_execute Om (zabs t) (wabs t) f = Some (wres (execute t f)).
+Proof. exact tie_execute_all. Qed.
+Check C02_source_execute : forall t f, TInv t -> w_execute Om (zabs t) (wabs t) f = Some (wres (execute t f)).
+Print Assumptions C02_source_execute.
+
